@@ -61,9 +61,22 @@ package pubsub
 //@   property C14
 //@   cancellable
 
+// Next (C05/C02): a message is returned, with a nil error, exactly when one was received from the
+// subscription's channel, and it is that message; the subscription's own error (set to
+// ErrSubscriptionCancelled by handleRemoveSubscription before the channel is closed) is reported
+// only by a receive that found the channel closed and drained - never while a buffered message
+// could still be received in that call; otherwise nothing is consumed and an error of one of
+// the two contexts is returned.
 //@ func (*Subscription).Next
-//@   property C14
+//@   property C14 C05
 //@   cancellable
+//@   requires sub: sub != nil
+//@   noframe
+//@   ensures message-is-the-received-one: received(sub.ch) > old(received(sub.ch)) && lastrecvok(sub.ch) ==> result0 == lastrecv(sub.ch) && result1 == nil
+//@   ensures closed-and-drained-reports-cancellation: received(sub.ch) > old(received(sub.ch)) && !lastrecvok(sub.ch) ==> result0 == nil && result1 == sub.err
+//@   ensures nothing-consumed-otherwise: received(sub.ch) == old(received(sub.ch)) ==> result0 == nil && (ctxdone(ctx) || ctxdone(sub.ctx)) &&
+//@        (result1 == lastret(Context.Err))
+//@   ensures at-most-one-message: received(sub.ch) - old(received(sub.ch)) <= 1
 
 //@ func (*Topic).Close
 //@   property C14
